@@ -384,6 +384,15 @@ def judge(ctx, cases):
             # structure judge needs exact end points
             if "e-09" not in d and "e-10" not in d:
                 why = arcs_replaced(src, dst)
+                if not why:
+                    # "the same point set within a small bound": every arc's cubics on the true ellipse
+                    from props import c12 as _c12
+                    for k_, v_ in src:
+                        if k_ == "A":
+                            w_ = _c12.judge_arc((v_[0], v_[1], v_[2], v_[3], v_[4], int(v_[5] != 0), int(v_[6] != 0), v_[7], v_[8]))
+                            if w_:
+                                why = "arc %s: %s" % (v_, w_)
+                                break
         elif op == "move":
             # documented precondition of move(): path data starts with a moveto
             if d.lstrip()[:1] in ("M", "m"):
